@@ -561,7 +561,21 @@ def gen_stack(rng, maxn=300):
         return None, "levels"
     top = z > levels[n1 - 1] + 1e-3
     st.numbers[top] = atomic_numbers[s2]
-    st.center(vacuum=7, axis=2)
+    period = 3 if (lat, facet) == ("fcc", "111") else 2
+    superlattice = bool(pbcz and (n1 + n2) % period == 0 and rng.random() < 0.6)
+    if superlattice:
+        # periodic stacking without vacuum: ...A|B|A|B..., the stacking sequence continues
+        # across the cell boundary (whole number of stacking periods)
+        d = float(np.diff(levels).mean())
+        cell = st.cell.array.copy()
+        cell[2] = [0.0, 0.0, (n1 + n2) * d]
+        st.set_cell(cell, scale_atoms=False)
+        if rng.random() < 0.5:
+            # another origin of the same periodic structure: a slab is cut by the cell face
+            st.positions[:, 2] += float(rng.uniform(-0.5, 0.5)) * (n1 + n2) * d
+    else:
+        st.center(vacuum=7, axis=2)
+    recipe["superlattice"] = superlattice
     st.pbc = [True, True, pbcz]
     if len(st) > maxn:
         return None, "large"
